@@ -317,7 +317,10 @@ def run_assembly(ctx):
         r.xarr = xa
         m.regions[rid] = r
         m.region_indices[rid] = numpy.index_exp[x0:x1, y0:y1]
-    m.y_groups = [[m.regions[0], m.regions[2]], [m.regions[1], m.regions[3]]]
+    # the first region of a y-group need not sit at y = 0 (closed surfaces: the chain starts in the core,
+    # whose y-range begins after the inner leg) -- F23: the x-face entries were stored through the
+    # region's 2-D index and so dropped unless the region's y-range started at 0
+    m.y_groups = [[m.regions[2], m.regions[0]], [m.regions[1], m.regions[3]]]
     add = transform.recompile(M.BoutMesh.geometry, nested="addFromRegions", extra_globals={"self": m}, lift=False)
     addx = transform.recompile(M.BoutMesh.geometry, nested="addFromRegionsXArray", extra_globals={"self": m}, lift=False)
     add("fld", all_corners=True)
@@ -336,7 +339,12 @@ def run_assembly(ctx):
             r = grp[0]
             x0 = boxes[r.myID][0]
             for i in range(r.nx):
-                ctx.oblige(And(gx.centre[x0 + i, 0] == r.xarr.centre[i, 0], gx.xlow[x0 + i, 0] == r.xarr.xlow[i, 0]), "x-direction array: entry %d of the FIRST region of its y-group" % (x0 + i))
+                for loc in ("centre", "xlow"):
+                    got, want = getattr(gx, loc)[x0 + i, 0], getattr(r.xarr, loc)[i, 0]
+                    if isinstance(got, float) and got != got:
+                        ctx.oblige(TRUE(False), "x-direction array at %s: entry %d of the FIRST region of its y-group (left NaN: never stored)" % (loc, x0 + i))
+                    else:
+                        ctx.oblige(got == want, "x-direction array at %s: entry %d of the FIRST region of its y-group" % (loc, x0 + i))
     return m
 
 
